@@ -65,6 +65,10 @@ pub fn settle_long_lived_threads() {
         std::hint::black_box(&s);
     });
     std::hint::black_box(n);
+    // iwe's only process-global lazy (the code-action-kind map) creates a HashMap, i.e. draws hash keys, on
+    // whichever thread touches it first: force that now, not inside some run
+    let k = iwes::router::server::action::identifier_to_action_kind("refactor.verif.settle".to_string());
+    std::hint::black_box(k);
 }
 
 // ---- unscheduled ("wild") thread seam of the shim
